@@ -336,8 +336,6 @@ def physicality(states):
 def ratio_class(x):
     """Coarse, run-to-run stable label of deviation / tolerance (truncated tensor networks are reproducible only to a
     few epsrel, so replay observations must not contain raw digits)."""
-    if x < 0.01:
-        return "<0.01"
     if x <= 1.0:
         return "<=1"
     return f">1e{int(math.floor(math.log10(x)))}"
